@@ -134,8 +134,13 @@ def add_features_calculator(mod: fx.GraphModule, extra_rules: List[Callable] = [
             # for concatenation over the features axis the number of output features is the sum
             # of the output features of preceding layers as for flatten, this is NOT equal to the
             # input shape of this layer, when one or more predecessors are NAS-able
+            # the operands of torch.cat, in order and with repetitions (`all_input_nodes` lists
+            # each distinct predecessor only once, e.g. for `torch.cat((a, a), 1)`)
+            operands = n.args[0] if len(n.args) > 0 else n.kwargs.get('tensors')
+            if not isinstance(operands, (list, tuple)):
+                operands = n.all_input_nodes
             ifc = ConcatFeaturesCalculator(
-                [prev.meta['features_calculator'] for prev in n.all_input_nodes]
+                [prev.meta['features_calculator'] for prev in operands]
             )
             n.meta['features_calculator'] = ifc
         elif n.meta['shared_input_features']:
